@@ -47,9 +47,6 @@ BENIGN = [f"u{i}" for i in range(64)]
 KEYWORDS = ["if", "class", "from", "def", "else", "while", "for", "in", "is", "not", "and", "or", "lambda",
             "pass", "return", "try", "with", "yield", "del", "global", "nonlocal", "import", "as", "assert",
             "break", "continue", "elif", "except", "finally", "raise", "async", "await"]
-# keywords that are Hy special forms / core macros cannot head a call as user functions but
-# are fine as plain variables; the generator only uses placeholders in non-head position for
-# function names when `callable_ok` says so.
 NONASCII = ["αβγ", "ñ_x", "変数", "naïve", "да", "été", "x́y",
             "λ1", "ångström", "♥v", "café?", "über-x", "Ω", "١x", "k₂"]
 
@@ -125,6 +122,13 @@ def rename_gen_prog(text, rng, style="hostile"):
     found = list(dict.fromkeys(_GP_NAME.findall(text)))
     names = pick_names(rng, len(found), style)
     mp = dict(zip(found, names))
+    if style in ("keyword", "mixed"):
+        used = set(names)
+        for k in found:                     # function names occur as call heads
+            if k[0] == "f" and mp[k] in KEYWORDS and mp[k] not in HEAD_SAFE_KW:
+                cand = [x for x in HEAD_SAFE_KW if x not in used]
+                mp[k] = cand[0] if cand else "hd" + k
+                used.add(mp[k])
     return _GP_NAME.sub(lambda m: mp[m.group(1)], text), mp
 
 
@@ -209,6 +213,12 @@ class TGen:
         self.in_comp = 0
         self.in_class = 0
         self.kw = self.new()         # a keyword-argument name
+        self.heads = set()           # placeholders that occur as the head of a call form
+
+    def newhead(self):
+        p = self.new()
+        self.heads.add(self.n - 1)
+        return p
 
     def new(self):
         self.n += 1
@@ -491,17 +501,17 @@ class TGen:
         return f"((fn [{ll}] {body}) {args})".replace(" )", ")")
 
     def e_defn(self, D):
-        f = self.new()
+        f = self.newhead()
         ll, body, args = self.fn_parts(D)
         return f"(do (defn {f} [{ll}] {body}) ({f} {args}))".replace(" )", ")")
 
     def e_deco(self, D):
-        f = self.new()
+        f = self.newhead()
         ll, body, args = self.fn_parts(D)
         return f"(do (defn [IDENT] {f} [{ll}] {body}) ({f} {args}))".replace(" )", ")")
 
     def e_return(self, D):
-        f = self.new()
+        f = self.newhead()
         ll, body, args = self.fn_parts(D)
         return f"(do (defn {f} [{ll}] (when {self.lit()} (return (do {body}))) 0) ({f} {args}))".replace(" )", ")")
 
@@ -538,7 +548,7 @@ class TGen:
         rng = self.rng
         if self.in_comp:
             return self.E(D)
-        K, A, M, P = self.new(), self.new(), self.new(), self.new()
+        K, A, M, P = self.newhead(), self.new(), self.new(), self.new()
         sr, sa = list(self.readable), list(self.assignable)
         self.in_class += 1
         try:
@@ -563,11 +573,11 @@ class TGen:
                 f"(+ (. {K} {A}) (.{M} ({K}) {self.lit()})))")
 
     def e_localmacro(self, D):
-        f, mac, x = self.new(), self.new(), self.new()
+        f, mac, x = self.newhead(), self.newhead(), self.new()
         return f"(do (defn {f} [] (defmacro {mac} [{x}] `(+ ~{x} 1)) ({mac} {self.lit()})) ({f}))"
 
     def e_importas(self, D):
-        b = self.new()
+        b = self.newhead()
         if self.rng.random() < 0.5:
             return f"(do (import math :as {b}) ({b}.floor 2.5))"
         return f"(do (import math [floor :as {b}]) ({b} 3.5))"
@@ -575,7 +585,7 @@ class TGen:
     def e_decl(self, D):
         """nonlocal / global declarations with several names"""
         rng = self.rng
-        f = self.new()
+        f = self.newhead()
         if self.fn_depth and self.fn_locals[-1] and not self.in_comp and not self.in_class:
             cands = [v for v in self.fn_locals[-1] if v in self.assignable]
             if cands:
@@ -637,7 +647,7 @@ class TGen:
         return f"(do (setv {t} {self.E(D)}) (del {t}) {self.lit()})"
 
     def e_require(self, D):
-        b = self.new()
+        b = self.newhead()
         return f"(do (require hy.core.macros [when :as {b}]) (or ({b} {self.C(D)} {self.E(D)}) 0))"
 
     # --- C14 extras -------------------------------------------------------
@@ -712,9 +722,9 @@ class TGen:
             return (f"(do (setv {o} (Point 1 2)) (setv {o}.{a} {self.E(D)}) (setv (. {o} {b}) {self.lit()}) "
                     f"(+ {o}.{a} (. {o} {b})))")
         if r < 0.7:
-            f = self.new()
+            f = self.newhead()
             return f"(do (defn {f} [{a} * {b}] (+ {a} {b})) ({f} :{a} {self.E(D)} :{b} {self.lit()}))"
-        f = self.new()
+        f = self.newhead()
         return (f"(do (defn {f} [#** {a}] (L {self.k()} (sorted (.items {a})))) ({f} :{b} {self.lit()} :{self.kw} 2) "
                 f"{self.lit()})")
 
@@ -742,7 +752,7 @@ class TGen:
         forms = [self.S(1) for _ in range(rng.randint(0, 2))]
         last = self.E(1)
         lines = [init] + forms + [f"(setv RESULT {last})", "(setv FINAL [" + " ".join(self.modvars) + "])"]
-        return "\n".join(lines), self.n, sorted(self.feats), vals[:len(self.keep)], self.inv
+        return "\n".join(lines), self.n, sorted(self.feats), vals[:len(self.keep)], self.inv, sorted(self.heads)
 
 
 def gen_template(rng, opts=(), max_depth=3, budget=28):
@@ -750,8 +760,27 @@ def gen_template(rng, opts=(), max_depth=3, budget=28):
     "keep": expected final values of the first len(keep) FINAL entries (never assigned),
     "inv": [[site, token], ...] closed-form site invariants}"""
     g = TGen(rng, max_depth=max_depth, budget=budget, opts=opts)
-    tmpl, n, feats, keep, inv = g.program()
-    return {"tmpl": tmpl, "n": n, "feats": feats, "keep": keep, "inv": inv}
+    tmpl, n, feats, keep, inv, heads = g.program()
+    return {"tmpl": tmpl, "n": n, "feats": feats, "keep": keep, "inv": inv, "heads": heads}
+
+
+HEAD_SAFE_KW = ["class", "def", "from", "elif", "pass", "as", "async", "lambda"]
+
+
+def names_for(rng, t, style):
+    """names for a template; placeholders in call-head position never get a keyword that is a
+    Hy special form or core macro (the program would mean something else)"""
+    names = pick_names(rng, t["n"], style)
+    if style in ("keyword", "mixed"):
+        safe = [k for k in HEAD_SAFE_KW]
+        rng.shuffle(safe)
+        used = set(names)
+        for h in t.get("heads", ()):
+            if names[h] in KEYWORDS and names[h] not in HEAD_SAFE_KW:
+                cand = [k for k in safe if k not in used]
+                names[h] = cand[0] if cand else f"hd{h}"
+                used.add(names[h])
+    return names
 
 
 # ---------------------------------------------------------------------------
@@ -972,12 +1001,16 @@ def compile_one(text, modname="hvc13", filename="<hvc13>"):
     try:
         tree = hy_compile(read_many(text, filename=filename), m, filename=filename, source=text)
         dump = ast.dump(tree, include_attributes=True)
-        co = compile(tree, filename, "exec")
-        return {"dump": hashlib.sha1(dump.encode("utf-8", "backslashreplace")).hexdigest(),
-                "code": code_digest(co),
-                "marshal": hashlib.sha1(marshal.dumps(co)).hexdigest(),
-                "sets": set_sizes(tree),
-                "hynames": len(hy_names(tree))}
+        out = {"dump": hashlib.sha1(dump.encode("utf-8", "backslashreplace")).hexdigest(),
+               "sets": set_sizes(tree), "hynames": len(hy_names(tree))}
+        try:
+            co = compile(tree, filename, "exec")
+        except (SyntaxError, ValueError, TypeError) as e:
+            # hy accepted the program, CPython rejects the AST: the AST dump still counts
+            out.update(code="rejected-by-python:" + type(e).__name__, marshal="-")
+            return out
+        out.update(code=code_digest(co), marshal=hashlib.sha1(marshal.dumps(co)).hexdigest())
+        return out
     except BaseException as e:
         if type(e).__name__ == "CaseTimeout":
             raise
